@@ -5,8 +5,12 @@ Import ListNotations.
 Open Scope string_scope.
 
 Inductive c15case :=
-  mk_c15 (k : jwk) (compact : string) (impl : option string) (expect : bool) (payload : string)
-         (prim_table : list (string * bool)).
+| mk_c15 (k : jwk) (compact : string) (impl : option string) (expect : bool) (payload : string)
+         (prim_table : list (string * bool))
+(* verification with the detached-payload option (ground truth attached by the generator):
+   kind 1 = other payload supplied for a non-detached JWS, 2 = detached form with its payload,
+   3 = detached form with another payload, 4 = detached form without payload, 5 = same payload supplied *)
+| mk_c15opt (kind : nat) (impl_ok : bool) (payload_returned_ok : bool) (expect : bool).
 
 (* primitive verdicts computed by the harness with the standard library for every candidate
    signing input of this JWS under this key; a message outside the table is an oracle miss *)
@@ -27,6 +31,10 @@ Definition judge_c15 (c : c15case) : verdict :=
         | None, None => match impl with None => Pass | Some _ => Mismatch 4 end
         | _, _ => OutOfDomain 5          (* verdict depends on a signing input the oracle did not cover *)
         end
+  | mk_c15opt kind ok pay expect =>
+      if negb (Bool.eqb ok expect) then SpecFail (20 + kind)
+      else if andb expect (negb pay) then SpecFail (30 + kind)
+      else Pass
   end.
 
 Definition jwk_eqb (a b : jwk) : bool :=
